@@ -17,7 +17,8 @@ ID = 'C19'
 LEVEL = 'exploration'
 RULE = (
     "Two Hypothesis RuleBasedStateMachines; every rule funnels through one interpreter, the case "
-    "is the operation trace. (emitter) fresh EventEmitter per example; 3 events, 3 sender objects "
+    "is the operation trace. (emitter) fresh EventEmitter per example; 3 events (two of them named so that on_<event> starts with o/n), 3 senders (two compared by "
+    "identity, one a tuple rebuilt on every use and compared by value) "
     "(+None filter), 6 callbacks (2 named on_<event> connected by name, 2 plain functions "
     "connected with event=, 2 bound methods of 2 owner objects), connect styles direct / "
     "decorator-with-arguments, last=True flag; rules connect, unconnect(callback|sender|owner), "
@@ -33,7 +34,7 @@ RULE = (
     "flag is set followed by an emit, single with >=2 candidates; reporter: >=2 completions.")
 ASSUMPTIONS = ['Python object identity/equality for sender matching']
 
-EVENTS = ['a', 'b', 'c']
+EVENTS = ['open', 'n_b', 'c']     # by-name events start with 'o' / 'n' (on_open, on_n_b)
 
 
 # ---------------------------------------------------------------------------------------------
@@ -66,10 +67,10 @@ class EmitterInterp(object):
         self.owners = [_Owner('0', self._log), _Owner('1', self._log)]
         log = self._log
 
-        def on_a(sender, *args, **kwargs):
+        def on_open(sender, *args, **kwargs):
             return log('f0', sender, args, kwargs)
 
-        def on_b(sender, *args, **kwargs):
+        def on_n_b(sender, *args, **kwargs):
             return log('f1', sender, args, kwargs)
 
         def plain2(sender, *args, **kwargs):
@@ -78,7 +79,7 @@ class EmitterInterp(object):
         def plain3(sender, *args, **kwargs):
             return log('f3', sender, args, kwargs)
 
-        self.cbs = [on_a, on_b, plain2, plain3, self.owners[0].handler, self.owners[1].handler]
+        self.cbs = [on_open, on_n_b, plain2, plain3, self.owners[0].handler, self.owners[1].handler]
         self.cb_names = ['f0', 'f1', 'f2', 'f3', 'm0', 'm1']
         self.regs = []          # model: dicts(event, sender, cb, last)
         self.flag = False       # model of set_silent
@@ -97,7 +98,12 @@ class EmitterInterp(object):
         return r
 
     def _sender(self, k):
-        return None if k is None else self.senders[k]
+        if k is None:
+            return None
+        if k == 2:
+            # a sender compared by value: a fresh, equal object on every use
+            return tuple(['sender', 2 + len(self.senders) - 3])
+        return self.senders[k]
 
     def step(self, op):
         o = op['op']
@@ -106,7 +112,7 @@ class EmitterInterp(object):
             cb = self.cbs[op['cb']]
             sender = self._sender(op['sender'])
             by_name = op['cb'] in (0, 1) and op['event'] is None
-            event = ['a', 'b'][op['cb']] if by_name else (op['event'] or 'c')
+            event = EVENTS[op['cb']] if by_name else (op['event'] or 'c')
             kw = {}
             if op['last']:
                 kw['last'] = True
@@ -125,7 +131,7 @@ class EmitterInterp(object):
                 must_return('unconnect', em.unconnect, self.cbs[op['i']])
                 self.regs = [r for r in self.regs if r['cb'] != op['i']]
             elif op['what'] == 'sender':
-                must_return('unconnect', em.unconnect, self.senders[op['i']])
+                must_return('unconnect', em.unconnect, self._sender(op['i']))
                 self.regs = [r for r in self.regs if r['sender'] != op['i']]
             else:
                 must_return('unconnect', em.unconnect, self.owners[op['i']])
@@ -192,7 +198,8 @@ class EmitterInterp(object):
         require(got == exp, 'emit called the wrong callbacks / wrong order', key='emit-order',
                 observed=got, expected=exp)
         for c in self.calls:
-            require(c[1] is sender and c[2] == args and c[3] == kwargs,
+            require((c[1] is sender or (sender is not None and c[1] == sender)) and
+                    c[2] == args and c[3] == kwargs,
                     'sender/arguments not passed through unchanged', key='emit-args',
                     observed=c[1:4], expected=(sender, args, kwargs))
         results = [c[4] for c in self.calls]
@@ -346,7 +353,7 @@ _kwargs = st.dictionaries(st.sampled_from(['k', 'end', 'n']), _small, max_size=2
 class EmitterMachine(_Base):
     KIND = 'emitter'
 
-    @rule(cb=st.integers(0, 5), event=st.sampled_from([None, 'a', 'a', 'a', 'b', 'c']),
+    @rule(cb=st.integers(0, 5), event=st.sampled_from([None, 'open', 'open', 'open', 'n_b', 'c']),
           sender=st.sampled_from([None, None, 0, 0, 1, 2]), last=st.booleans(),
           style=st.sampled_from(['direct', 'decorator']))
     def connect(self, cb, event, sender, last, style):
@@ -376,7 +383,7 @@ class EmitterMachine(_Base):
     def leave(self):
         self.do(dict(op='leave'))
 
-    @rule(event=st.sampled_from(['a', 'a', 'a', 'b', 'c']),
+    @rule(event=st.sampled_from(['open', 'open', 'open', 'n_b', 'c']),
           sender=st.sampled_from([None, 0, 0, 0, 1, 2]),
           args=st.lists(_small, max_size=2), kwargs=_kwargs, single=st.booleans())
     def emit(self, event, sender, args, kwargs, single):
